@@ -206,11 +206,11 @@ func gen(t *rapid.T) Case {
 			}
 			switch rapid.IntRange(0, 7).Draw(t, "hport") {
 			case 0:
-				h += ":80"
+				h += rapid.SampledFrom([]string{":80", ":80", ":9", ":0", ":65535", ":09", ":1234567890"}).Draw(t, "validPort") // every digit occurs
 			case 1:
 				h += ":"
 			case 2:
-				h += ":8x"
+				h += rapid.SampledFrom([]string{":8x", ":8x", ":/", "::", ":8:", ":\uff18", ":+8", ":8 "}).Draw(t, "badPort") // incl. the bytes just outside 0-9
 			case 3:
 				h = "[" + h + "]"
 			case 4:
